@@ -163,7 +163,11 @@ class World(object):
         self.leaf_label = {}     # id(leaf) -> label
         self.leaf_obj = {}       # label -> leaf object
         self.keep = []           # strong references (ids must stay unique)
+        self.epoch_no = -1       # index of the current model (incremented by every `pep` op)
+        self.name_epoch = {}     # handle -> epoch index
+        self.leaf_epoch = {}     # leaf label -> epoch index
         self.block_requests = []
+        self.temp_decomposed = []
         self.created_log = []    # every Constraint / PSDMatrix ever created: dict(obj, kind, origin, owner, opi, solve)
         self.current_opi = None
         self.epoch = None
@@ -209,6 +213,7 @@ class World(object):
             lab = "%s%d" % (prefix, len(self.leaf_label))
             self.leaf_label[k] = lab
             self.leaf_obj[lab] = leaf
+            self.leaf_epoch[lab] = self.epoch_no
             self.keep.append(leaf)
         return self.leaf_label[k]
 
@@ -245,6 +250,7 @@ class World(object):
         self.h[name] = obj
         self.allobj[name] = obj
         self.kind[name] = kind
+        self.name_epoch[name] = self.epoch_no
         self.keep.append(obj)
         if den is None:
             if kind == "point":
@@ -322,7 +328,7 @@ class World(object):
 
     def _created(self, obj, kind, origin, owner):
         rec = {"obj": obj, "kind": kind, "origin": origin, "owner": owner, "opi": self.current_opi,
-               "solve": self.cur.index if self.cur is not None else None}
+               "solve": self.cur.index if self.cur is not None else None, "epoch": self.epoch_no}
         self.created_log.append(rec)
         if self.cur is not None:
             self.cur.created.append(rec)
@@ -407,6 +413,7 @@ class World(object):
     # -- model objects
     def op_pep(self, op):
         from PEPit import PEP
+        self.epoch_no += 1
         P = PEP()
         self.bind(op["out"], P, "pep")
         self.epoch = {"pep": op["out"], "funcs": [], "parts": [], "metrics": [], "pep_cons": [], "pep_psd": [],
@@ -740,6 +747,68 @@ class World(object):
         else:
             raise HarnessError("bad edit")
 
+    def op_release(self, op):
+        """The session lets go of every object of an earlier model (rebinding its variables); the garbage
+        collector then runs.  Finalizers of the library, if any, fire at this point of the current build."""
+        import gc
+        k = op["epoch"]
+        if k < 0 or k >= self.epoch_no or k > self.epoch_no:
+            return {"value": "no-such-epoch"}
+        names = [n for n, e in self.name_epoch.items() if e == k]
+        for n in names:
+            self.h.pop(n, None)
+            self.allobj.pop(n, None)
+            self.den.pop(n, None)
+            self.kind.pop(n, None)
+            self.name_epoch.pop(n, None)
+        labs = [l for l, e in self.leaf_epoch.items() if e == k]
+        for l in labs:
+            obj = self.leaf_obj.pop(l, None)
+            self.leaf_epoch.pop(l, None)
+            if obj is not None:
+                self.leaf_label.pop(id(obj), None)
+        self.created_log = [r for r in self.created_log if r.get("epoch") != k]
+        for rec in self.solves:
+            if getattr(rec, "epoch", None) == k:
+                rec.pep = None
+                rec.caps = []
+                rec.created = []
+                rec.table_calls = []
+                rec.ctx = None
+                rec.exc = None if rec.exc is None else type(rec.exc)("released")
+        self.keep = []      # everything still needed is referenced by h / allobj / leaf_obj / created_log
+        self.__dict__.pop("_book", None)
+        self.__dict__.pop("_blocks", None)
+        n = gc.collect()
+        self.reach["released_epochs"] += 1
+        return None
+
+    def op_block_temp(self, op):
+        """get_block on a temporary point written on the fly (nobody keeps the point itself)."""
+        import gc
+        from PEPit import null_point
+        B = self.get(op["B"])
+        tmp = self._lin(op["terms"], null_point)
+        den = {}
+        for hname, w in op["terms"]:
+            for kk, v in self.den[hname].items():
+                den[kk] = den.get(kk, 0.0) + w * v
+        den = {kk: v for kk, v in den.items() if v != 0}
+        d = B.get_nb_blocks()
+        blocks = [B.get_block(tmp, k) for k in range(d)]
+        acc = {}
+        for bk in blocks:
+            for kk, v in self.den_point(bk).items():
+                acc[kk] = acc.get(kk, 0.0) + v
+        acc = {kk: v for kk, v in acc.items() if abs(v) > 1e-14}
+        if "blocks" in self.oracles and not self.den_close(acc, den):
+            self.violation("C15/sum", "blocks-do-not-sum-back-to-the-point", {"B": op["B"], "temp": True, "d": d})
+        xb = blocks[op["k"]]
+        self.temp_decomposed.append((op["B"], den, list(blocks)))
+        del tmp, blocks
+        self.bind(op["out"], xb, "point")
+        self.reach["get_block_temp"] += 1
+
     def op_drop(self, op):
         for n in op["handles"]:
             self.h.pop(n, None)
@@ -838,6 +907,7 @@ class World(object):
         envc = dict(op.get("env") or {})
         rec = SolveRecord(len(self.solves), self.current_opi, op)
         rec.pep = P
+        rec.epoch = self.epoch_no
         self.solves.append(rec)
         # S3: back-end discovery and licence script
         env.set_mosek_present(envc.get("mosek", "absent") == "present")
@@ -910,7 +980,7 @@ class World(object):
         if self.want_raw:
             out["raw"] = [c.raw_digest for c in rec.caps]
             calls = [(c[0],) + tuple(c[2:]) if c[0] not in ("Env", "checkoutlicense", "expirylicenses") else c
-                     for c in rec.mosek_calls]
+                     for c in rec.mosek_calls if c[0] not in ("set_Stream", "solutionsummary")]
             out["mosek_calls"] = hashlib.sha256(repr(calls).encode()).hexdigest() if calls else None
             out["mosek_ncalls"] = len(calls)
         if rec.exc is not None:
